@@ -12,7 +12,7 @@
 #include <algorithm>
 #include <functional>
 #include "vf.hpp"
-#include <sanitizer/asan_interface.h>
+#include "crashnote.hpp"
 #ifndef VF_FUZZ
 #include <rapidcheck.h>
 #endif
@@ -174,6 +174,7 @@ static void labels_of(const Runner &r, Outcome &o) {
 }
 
 static Outcome run_concrete(int Z, size_t unit, const std::vector<COp> &ops, bool finish = true) {
+    { std::ostringstream o; o << "Z " << Z << " " << unit << "\n"; for (auto &c : ops) { if (c.k == 'M') o << "M " << c.a << " " << c.b << "\n"; else o << "F " << c.a << "\n"; } crashnote::set(o.str()); }
     Outcome out; Runner r(Z, unit);
     bool ok = true;
     for (size_t i = 0; i < ops.size() && ok; i++) {
@@ -193,6 +194,7 @@ static const size_t UNITS[3] = {1, 8, 512};
 // words -> operations, resolved against the current model state
 static Outcome run_words(const Words &w) {
     Outcome out;
+    { std::ostringstream o; o << "W"; for (long x : w) o << " " << x; o << "\n"; crashnote::set(o.str()); }
     if (w.size() < 3) { out.text = "Z 1 1\n"; return out; }
     int Z;
     switch (w[0] % 4) {
@@ -311,6 +313,7 @@ static int replay_file(const char *path) {
 int main(int argc, char **argv) {
     std::string mode = argc > 1 ? argv[1] : "rc";
     if (mode == "replay") return replay_file(argv[2]);
+    crashnote::install();
     if (mode == "replay-bytes") {
         std::string d = vf::slurp(argv[2]);
         Outcome o = run_words(bytes_to_words((const uint8_t *)d.data(), d.size()));
